@@ -2,6 +2,7 @@ package main
 
 import (
 	"go/token"
+	"strings"
 
 	"golang.org/x/tools/go/ssa"
 )
@@ -38,7 +39,51 @@ func mChanField(typ, field string) VMatch {
 // directly, or (via must-summaries) a callee that always does so first (rotateMem).
 func evMemFlushWait() InstrPred {
 	base := andPred(evCall("(*leveldb.DB).compTriggerWait"), predArg(1, mChanField(tDB, "mcompCmdC")))
-	return newMust(base, nil).pred(2)
+	freeze := evCall("(*leveldb.DB).newMem")
+	return func(in ssa.Instruction) bool {
+		if base(in) {
+			return true
+		}
+		if _, isDefer := in.(*ssa.Defer); isDefer {
+			return false
+		}
+		if _, isGo := in.(*ssa.Go); isGo {
+			return false
+		}
+		cc := callCommon(in)
+		if cc == nil {
+			return false
+		}
+		callee := staticCallee(cc)
+		if callee == nil || len(callee.Blocks) == 0 || callee.Pkg == nil || !strings.HasPrefix(callee.Pkg.Pkg.Path(), modPath) {
+			return false
+		}
+		// A helper counts only if — with the boolean constants passed at THIS call site — every
+		// success path waits, and waits AFTER the last buffer it froze (rotateMem(n, false) waits
+		// for the previous flush only and merely schedules the flush of the buffer it freezes).
+		edges := []EdgeFilter{noErrEdges}
+		args := cc.Args
+		if cc.Signature().Recv() != nil && !cc.IsInvoke() {
+			args = args[1:]
+		}
+		params := callee.Params
+		if callee.Signature.Recv() != nil {
+			params = params[1:]
+		}
+		for i, a := range args {
+			if b, ok := constBool(a); ok && i < len(params) {
+				edges = append(edges, assumeParam(callee, params[i].Name(), b))
+			}
+		}
+		ef := andEdges(edges...)
+		if findPath(entryPoint(callee), ef, base, isReturn) != nil {
+			return false
+		}
+		if findPath(after(callee, freeze), ef, base, isReturn) != nil {
+			return false
+		}
+		return true
+	}
 }
 
 func runC04(p *Prog, r *Report) {
